@@ -19,13 +19,18 @@ def run(ctx):
     if ctx.replay:
         import json
         rp = json.load(open(ctx.replay))["replay"]
-        return AG.replay_file(ctx, ctx.replay, AGK) if rp.get("spec") == "Autograd" else CC.replay_file(ctx, ctx.replay, KINDS)
+        if rp.get("spec") == "Autograd":
+            return AG.replay_file(ctx, ctx.replay, AGK)
+        return CC.replay_file(ctx, ctx.replay, KINDS, replayer=CC.NN_REPLAYER if rp.get("spec") == "NNCatalog" else ("replay_catalog", "CatalogReplayer"))
     rep = core.Report(ctx, "model_checking", assumptions=[
         "mutation is observed through tobytes() snapshots of the arrays reachable from the public attributes .data / .grad",
         "operands that are views of one another: covered by the Autograd behaviours (clone/detach/idx of a shared leaf), not by the catalogue"])
     rep.rule = "catalogue cases (forward twice + backward per upstream gradient) and Autograd behaviours; every array in scope snapshotted"
     cases = CC.tensor_cases(ctx, rep, with_grad=True)
     CC.replay(ctx, rep, cases, KINDS)
+    # layers / losses: operands, targets, class labels and (in inference mode) running statistics
+    ncases = CC.nn_cases(ctx, rep, with_grad=True)
+    CC.replay(ctx, rep, ncases, KINDS, replayer=CC.NN_REPLAYER, spec="NNCatalog")
     q = ctx.quick
     L = [dict(vec=True, rg=True), dict(vec=False, rg=True)]
     ops = {"add", "mul", "clone", "idx", "sum", "stack", "sq"}
